@@ -504,6 +504,11 @@ pub fn run(cfg: &Cfg, prop: &str) {
                 sink.oracle(out.events.iter().all(|e| !e.starts_with('|')), "an inspection of the layout ran although verification failed before the inspection stage", &replay);
             }
         }
+        if prop == "C15" && out.ok {
+            let want = s.name.as_ref().map(|n| crate::proto::hexs(n)).unwrap_or_else(|| "-".into());
+            let got = out.answer.split(' ').nth(1).unwrap_or("?").to_string();
+            sink.oracle(got == want, "the summary link does not carry the requested name", &replay);
+        }
         // ---- determinism: the same inputs again (fresh hash seeds) give the same answer
         if prop == "C13" || i % 4 == 0 {
             for _ in 0..(if prop == "C13" { 6 } else { 1 }) {
